@@ -948,7 +948,7 @@ public:
         auto zp = encode(p);
         auto range = pgm.search(zp);
         auto it = std::lower_bound(data.begin() + range.lo, data.begin() + range.hi, zp);
-        return it != data.end() || morton::Decode(*it) == p;
+        return it != data.end() && morton::Decode(*it) == p;
     }
 
     /**
